@@ -25,7 +25,6 @@ import (
 	"github.com/go-openapi/analysis/internal/flatten/replace"
 	"github.com/go-openapi/analysis/internal/flatten/schutils"
 	"github.com/go-openapi/analysis/internal/flatten/sortref"
-	"github.com/go-openapi/jsonpointer"
 	"github.com/go-openapi/spec"
 )
 
@@ -274,20 +273,27 @@ func removeUnused(opts *FlattenOpts) {
 func removeUnusedSinglePass(opts *FlattenOpts) (hasRemoved bool) {
 	expected := make(map[string]struct{})
 	for k := range opts.Swagger().Definitions {
-		expected[path.Join(definitionsPath, jsonpointer.Escape(k))] = struct{}{}
+		expected[k] = struct{}{}
 	}
 
-	for _, k := range opts.Spec.AllDefinitionReferences() {
-		delete(expected, k)
+	// compare decoded names: rendered $ref strings are URL-escaped, definition keys are not
+	for _, ref := range opts.Spec.references.schemas {
+		if !ref.HasFragmentOnly {
+			continue
+		}
+
+		if tokens := ref.GetPointer().DecodedTokens(); len(tokens) == 2 && tokens[0] == "definitions" {
+			delete(expected, tokens[1])
+		}
 	}
 
 	for k := range expected {
 		hasRemoved = true
-		debugLog("removing unused definition %s", path.Base(k))
+		debugLog("removing unused definition %s", k)
 		if opts.Verbose {
-			log.Printf("info: removing unused definition: %s", path.Base(k))
+			log.Printf("info: removing unused definition: %s", k)
 		}
-		delete(opts.Swagger().Definitions, path.Base(k))
+		delete(opts.Swagger().Definitions, k)
 	}
 
 	opts.Spec.reload() // re-analyze
